@@ -20,6 +20,7 @@ type C12Case struct {
 
 // checkC12 returns a class label, "" when the encoder rejected the input.
 func checkC12(t TB, st *Stats, c C12Case) string {
+	noteCase("C12", "ec-strength", c)
 	const P, K = "C12", "ec-strength"
 	switch c.Sym {
 	case "qr":
